@@ -40,9 +40,11 @@ Definition arr := nat -> Z.
 Definition upd (c : arr) (i : nat) (v : Z) : arr :=
   fun k => if (k =? i)%nat then v else c k.
 
-(** slice assignment  c[lo:hi] = [g k for k in range(lo, hi)] *)
+(** slice assignment  c[lo:hi] = [g k for k in range(lo, hi)]; as in Python the right-hand side
+    list is built first (eagerly), then stored *)
 Definition upd_range (c : arr) (lo hi : nat) (g : nat -> Z) : arr :=
-  fun k => if ((lo <=? k)%nat && (k <? hi)%nat)%bool then g k else c k.
+  let rhs := map g (seq lo (hi - lo)) in
+  fun k => if ((lo <=? k)%nat && (k <? hi)%nat)%bool then nth (k - lo) rhs 0 else c k.
 
 Fixpoint ab_f (fuel : nat) (x y : arr) (i j : nat) (high : bool) (cd : arr * arr) : arr * arr :=
   match fuel with
@@ -144,6 +146,14 @@ Local Arguments Z.modulo : simpl never.
 Local Arguments Z.of_nat : simpl never.
 
 Ltac Zify.zify_post_hook ::= Z.div_mod_to_equations.
+
+Lemma upd_range_spec c lo hi g k :
+  upd_range c lo hi g k = if ((lo <=? k)%nat && (k <? hi)%nat)%bool then g k else c k.
+Proof.
+  unfold upd_range.
+  destruct (Nat.leb_spec lo k) as [H1|H1]; destruct (Nat.ltb_spec k hi) as [H2|H2]; cbn [andb]; try reflexivity.
+  rewrite nth_map_seq by lia. f_equal. lia.
+Qed.
 
 Lemma isbit_cases b : isbit b -> b = 0 \/ b = 1. Proof. auto. Qed.
 
@@ -316,17 +326,17 @@ Proof.
     assert (Ch : c2 (h - 1)%nat = cr i (h - i)).
     { rewrite Rc' by lia. rewrite Lc by lia. f_equal. lia. }
     repeat split.
-    + intros k Hk. unfold upd_range.
+    + intros k Hk. rewrite upd_range_spec.
       destruct (Nat.leb_spec h k) as [Hhk|Hhk]; destruct (Nat.ltb_spec k j) as [Hkj|Hkj]; cbn [andb]; try lia.
       * rewrite Ch, Rc, Rd by lia.
         replace (k - i + 1)%nat with ((h - i) + (k - h + 1))%nat by lia.
         rewrite (cr_split i (h - i) (k - h + 1)). replace (i + (h - i))%nat with h by lia. ring.
       * rewrite Rc' by lia. apply Lc. lia.
-    + intros k Hk. unfold upd_range.
+    + intros k Hk. rewrite upd_range_spec.
       destruct (Nat.leb_spec h k) as [Hhk|Hhk]; destruct (Nat.ltb_spec k j) as [Hkj|Hkj]; cbn [andb]; try lia.
       * rewrite Rc' by lia. apply Lc'. lia.
       * rewrite Rc' by lia. apply Lc'. lia.
-    + intros Hhigh k Hk. subst high. specialize (Ld eq_refl). unfold upd_range.
+    + intros Hhigh k Hk. subst high. specialize (Ld eq_refl). rewrite upd_range_spec.
       destruct (Nat.leb_spec h k) as [Hhk|Hhk]; destruct (Nat.ltb_spec k j) as [Hkj|Hkj]; cbn [andb]; try lia.
       * rewrite Rd' by lia. rewrite Ld by lia. rewrite Rd by lia.
         replace (k - i + 1)%nat with ((h - i) + (k - h + 1))%nat by lia.
@@ -334,7 +344,7 @@ Proof.
         replace (h - 1 - i + 1)%nat with (h - i)%nat by lia. ring.
       * rewrite Rd' by lia. apply Ld. lia.
     + intros k Hk. destruct high.
-      * unfold upd_range.
+      * rewrite upd_range_spec.
         destruct (Nat.leb_spec h k) as [Hhk|Hhk]; destruct (Nat.ltb_spec k j) as [Hkj|Hkj]; cbn [andb]; try lia.
         -- rewrite Rd' by lia. apply Ld'. lia.
         -- rewrite Rd' by lia. apply Ld'. lia.
